@@ -72,10 +72,14 @@ def program(rng, pid, ssa=None, shape=None, features=None):
     rgns = [v for v in (A, Bv, RR, A2, UK, A3) if v]
     P_, Q_, T_, R_ = decl("p", "ref"), decl("q", "ref"), decl("t", "ref"), decl("r", "ref")
     M_ = decl("m", "ref") if has_rr else 0
-    refs = [v for v in (P_, Q_, T_, R_, M_) if v]
+    # a second reference into the region that holds references (two objects / two references in one smashed region)
+    N_ = decl("n", "ref") if has_rr and rng.random() < 0.5 else 0
+    refs = [v for v in (P_, Q_, T_, R_, M_, N_) if v]
     ref_cls = {P_: 1, Q_: 1, T_: 1, R_: 2}
     if M_:
         ref_cls[M_] = 3
+    if N_:
+        ref_cls[N_] = 3
     kinds.append("heap")
     cls_refs = {c: [v for v in refs if ref_cls[v] == c] for c in (1, 2, 3)}
     main_rgn = {1: A, 2: Bv, 3: RR}
@@ -153,6 +157,8 @@ def program(rng, pid, ssa=None, shape=None, features=None):
         MK = {P_} | {v for v in refs if v != P_ and rng.random() < 0.4}
         if M_:
             MK.add(M_)
+        if N_ and rng.random() < 0.6:
+            MK.add(N_)
 
     def can_mk(v):
         """allocation budget: the concrete model has NADDR cells; allocating loops run twice"""
@@ -403,7 +409,38 @@ def program(rng, pid, ssa=None, shape=None, features=None):
         set_ref(dst, G["nn"][src], G["obj"][src], G["off"][src], G["wr"][src], G["mdead"][src])
         return out
 
+    def two_stores():
+        """two different references into the region that holds references: *m := a; *n := b; then load *m back into a
+        class-1 reference (the first cell still holds a)"""
+        ms = [u for u in cls_refs[3] if ok_deref(u)]
+        if len(ms) < 2 or G["obj"][ms[0]] == G["obj"][ms[1]]:
+            return cursor()
+        m1, m2 = rng.sample(ms, 2)
+        srcs = [u for u in cls_refs[1] if G["nn"][u] == "nn" and not G["mdead"][u] and G["obj"][u] not in G["dead"]]
+        if not srcs:
+            return cursor()
+        a = rng.choice(srcs)
+        b = rng.choice(srcs)
+        out = []
+        guard(m1, out)
+        guard(m2, out)
+        out.append({"op": "rstore", "ref": m1, "r": RR, "cls": 3, "vk": 0, "v": a})
+        out.append({"op": "rstore", "ref": m2, "r": RR, "cls": 3, "vk": 0, "v": b} if rng.random() < 0.8 else
+                   {"op": "rstore", "ref": m2, "r": RR, "cls": 3, "vk": 1, "v": 0})
+        for mm in (m1, m2):
+            G["wr"][mm].add(RR)
+            for u in same_cell(mm):
+                G["wr"][u].add(RR)
+        dst = pick(cls_refs[1], lambda u: u != a and writable(u))
+        if dst is None:
+            return out
+        out.append({"op": "rload", "x": dst, "ref": m1, "r": RR, "cls": 3})
+        set_ref(dst, G["nn"][a], G["obj"][a], G["off"][a], G["wr"][a], G["mdead"][a])
+        return out
+
     def one():
+        if RR and N_ and rng.random() < 0.08:
+            return two_stores()
         if RR and rng.random() < 0.07:
             return cursor()
         r = rng.random()
@@ -463,17 +500,18 @@ def program(rng, pid, ssa=None, shape=None, features=None):
                     c = rc("ne" if G["nn"][v] == "nn" else "eq", v)
             return [{"op": "rassert", "c": c, "id": ctr["assert"]}]
         if r < 0.91 and RR:
-            if not ok_deref(M_):
+            mref = pick(cls_refs[3], ok_deref)
+            if mref is None:
                 return []
             out = []
-            if rng.random() < 0.5 or RR not in G["wr"][M_]:
-                return store(M_, RR)
+            if rng.random() < 0.5 or RR not in G["wr"][mref]:
+                return store(mref, RR)
             dst = pick(cls_refs[1], writable)
             if dst is None:
                 return []
-            guard(M_, out)
+            guard(mref, out)
             set_ref(dst, "maybe", None, None, [], True)
-            return out + [{"op": "rload", "x": dst, "ref": M_, "r": RR, "cls": 3}]
+            return out + [{"op": "rload", "x": dst, "ref": mref, "r": RR, "cls": 3}]
         if r < 0.935 and feats["tags"]:
             v = pick([P_, Q_, R_], lambda u: ok_deref(u) and G["wr"][u])
             if v is None:
